@@ -325,7 +325,10 @@ def build(f, space, sp, variant=0):
         return S.FunctionalQuadraticPerturb(g, quadratic_coeff=float(s),
                                             linear_term=vec(f['u']) if f['u'] else None, constant=float(c))
     if op == 'Conj':
-        return g.convex_conj
+        try:
+            return g.convex_conj
+        except ValueError as e:      # refused with an explanation (e.g. negative multiple of a linear functional)
+            raise Unbuildable('convex_conj refused: ' + str(e)[:80])
     if op == 'Bregman':
         y, p = vec(f['v']), vec(f['u'])
         return g.bregman(y, p) if variant == 0 else S.BregmanDistance(g, y, p)
